@@ -606,7 +606,7 @@ func (c *Ctx) ringMemorySafetyRest(an *bounds.Analyzer, entries []*ssa.Function)
 		}
 	}
 	c.R.Count("index/slice sites in the ring buffer", n)
-	c.R.Floor("index/slice sites in the ring buffer", n, 15)
+	c.R.Floor("index/slice sites in the ring buffer", n, 10)
 }
 
 // ringPositions: each side addresses the ring at its own cursor: every non-zero start index of a slice of
@@ -676,6 +676,25 @@ func (c *Ctx) ringPositions() {
 				v = ir.SeeThrough(v)
 				if cv, isC := v.(*ssa.Convert); isC {
 					v = ir.SeeThrough(cv.X)
+				}
+				// handed in by the ring method that computed it: judged at the call sites
+				if prm, isP := v.(*ssa.Parameter); isP && d < 3 && prm.Parent() != nil {
+					sites := c.P.Callers(prm.Parent())
+					if len(sites) == 0 {
+						return false
+					}
+					for _, site := range sites {
+						okSite := false
+						for i, q := range prm.Parent().Params {
+							if q == prm && i < len(site.Common().Args) && !site.Common().IsInvoke() {
+								okSite = atCursor(site.Common().Args[i], d+1)
+							}
+						}
+						if !okSite {
+							return false
+						}
+					}
+					return true
 				}
 				if bo, isB := v.(*ssa.BinOp); isB && bo.Op == token.AND {
 					for _, pr := range [][2]ssa.Value{{bo.X, bo.Y}, {bo.Y, bo.X}} {
